@@ -90,12 +90,17 @@ type sinkWriter struct {
 	oneShot  bool
 	failed   bool
 	lens     []int
+	// number of bytes accepted before the first failing Write (-1: no failure yet)
+	atFail int
 }
 
 func (s *sinkWriter) Write(p []byte) (int, error) {
 	k := s.calls
 	s.calls++
 	if s.failAt >= 0 && (k == s.failAt || (!s.oneShot && k > s.failAt)) {
+		if !s.failed {
+			s.atFail = len(s.accepted)
+		}
 		s.failed = true
 		return 0, errInjected
 	}
